@@ -20,13 +20,16 @@ func siteR(kind, name, typ, pkg string) *jg.Site {
 }
 
 var c02ExprNames = []string{"implicit", "this-call", "field-imported", "field-project", "param", "local", "static", "chained",
-	"nested-arg", "new", "new-with-arg-call", "lambda", "this-field", "param-project", "new-generic", "new-qualified", "new-then-call", "new-in-lambda", "new-as-argument", "local-of-declared-type-initialised-with-other-new"}
+	"nested-arg", "new", "new-with-arg-call", "lambda", "this-field", "param-project", "new-generic", "new-qualified", "new-then-call", "new-in-lambda", "new-as-argument", "local-of-declared-type-initialised-with-other-new", "field-of-project-interface-via-on-demand-import"}
 
 // c02Expr returns (prefix statements needed before, expression fragments).
 func c02Expr(kind string, uniq string) (pre []jg.Stmt, e []jg.Frag) {
 	switch kind {
 	case "implicit":
 		e = []jg.Frag{jg.S(siteR("call", "doIt", "Svc", "app")), jg.T("()")}
+	case "field-of-project-interface-via-on-demand-import":
+		// the declared type is a project interface of another package, visible only through `import app.api.*;`
+		e = []jg.Frag{jg.T("notifier."), jg.S(siteR("call", "send", "Notifier", "app.api")), jg.T("()")}
 	case "this-call":
 		e = []jg.Frag{jg.T("this."), jg.S(site("call", "doIt")), jg.T("()")}
 	case "field-imported":
@@ -130,7 +133,7 @@ type c02Project struct {
 func c02Gen(c *engine.C) engine.Case {
 	layout, _ := pickLayout(c)
 	svc := &jg.Class{Pkg: "app", Name: "Svc", Kind: "class", Mods: []string{"public"},
-		Imports: []string{"lib.Repo", "other.Tool", "java.util.List"}}
+		Imports: []string{"lib.Repo", "other.Tool", "java.util.List", "app.api.*"}}
 	switch engine.Pick(c, "import-suffix-collision", "none", "type-name-ends-with-imported-type-name", "type-name-ends-with-own-method-name") {
 	case "type-name-ends-with-imported-type-name":
 		svc.Imports = append([]string{"lib2.SuperRepo"}, svc.Imports...)
@@ -145,6 +148,7 @@ func c02Gen(c *engine.C) engine.Case {
 		jg.Member{Field: &jg.Field{Mods: []string{"private"}, Type: "Helper", Name: "helper"}},
 		jg.Member{Field: &jg.Field{Mods: []string{"private"}, Type: "boolean", Name: "flag"}},
 		jg.Member{Field: &jg.Field{Mods: []string{"private"}, Type: "Helper", Name: "aux"}},
+		jg.Member{Field: &jg.Field{Mods: []string{"private"}, Type: "Notifier", Name: "notifier"}},
 	)
 	reuse := engine.PickTag(c, "name-reuse", "none", "param-then-local", "param-shadows-field", "locals-in-siblings", "local-shadows-field", "field-then-param-other-method")
 	nMethods := []int{2, 1, 3}[c.Choose(3, "methods")]
@@ -235,6 +239,8 @@ func c02Gen(c *engine.C) engine.Case {
 		{Path: "app/Svc.java", Content: jg.Print(svc, layout)},
 		{Path: "app/Helper.java", Content: jg.Print(helper, jg.DefaultLayout())},
 		{Path: "other/Tool.java", Content: jg.Print(tool, jg.DefaultLayout())},
+		{Path: "app/api/Notifier.java", Content: "package app.api;\n\npublic interface Notifier {\n    Object send();\n}\n"},
+		{Path: "app/api/Mailer.java", Content: "package app.api;\n\npublic class Mailer implements Notifier {\n    public Object send() {\n        return null;\n    }\n}\n"},
 	}
 	return func() engine.Result { return c02Check(files, svc, c02Mode) }
 }
